@@ -720,7 +720,31 @@ func (m *Model) Pull(s *MSub, max int, resp []RecvMsg, t0, t1 time.Time) *Violat
 				if !earlier || p.Msg == e.Msg {
 					continue
 				}
-				if copyInvolved && (!p.possiblySettled(t1) || seen[p]) {
+				// the known mechanism is a TIE: several same-key copies forwarded by one
+				// dead-lettering step (same published_at). It applies when e and p are such
+				// siblings, or when p has such a sibling (e's link may point at the sibling).
+				// A copy forwarded on its own has an unambiguous place in the chain.
+				tie := false
+				if copyInvolved {
+					overlap := func(a, b *ED) bool { return !a.CreLo.After(b.CreHi) && !b.CreLo.After(a.CreHi) }
+					isCopy := func(x *ED) bool { return x.Origin != nil || x.MaybeCopy }
+					if isCopy(e) && isCopy(p) && overlap(e, p) {
+						tie = true
+					}
+					for _, y := range s.EDs {
+						if y != p && y != e && y.Msg.Key == e.Msg.Key && y.State != stGone && isCopy(y) && isCopy(p) && overlap(y, p) {
+							tie = true
+						}
+					}
+				}
+				// second known mechanism: the predecessor lookup only considers deliveries whose
+				// MESSAGE belongs to the same topic as the new one (actions/delivery-utils.go,
+				// "not necessary? maybe helps with indexes?"), so a forwarded copy is never chained
+				// behind messages of the dead-letter topic itself or copies from another topic
+				if copyInvolved && e.Msg.Topic != p.Msg.Topic {
+					tie = true
+				}
+				if copyInvolved && tie && (!p.possiblySettled(t1) || seen[p]) {
 					// known finding: predecessor links are chosen by published_at, which is one
 					// and the same instant for every copy forwarded by one dead-lettering step,
 					// so the link of a copy (or of a message published after them) may point at
@@ -759,7 +783,7 @@ func (m *Model) Pull(s *MSub, max int, resp []RecvMsg, t0, t1 time.Time) *Violat
 							break
 						}
 					}
-					if v := m.knownOr(viol("C05", oracle, "message %d (key %q) delivered on %s while earlier message %d with the same key is outstanding (%v)", e.Msg.Seq, e.Msg.Key, s.Name, p.Msg.Seq, p)); v != nil {
+					if v := m.knownOr(viol("C05", oracle, "message %d (key %q) delivered on %s while earlier message %d with the same key is outstanding (%v)%s%s", e.Msg.Seq, e.Msg.Key, s.Name, p.Msg.Seq, p, m.describe(p), m.describe(e))); v != nil {
 						return v
 					}
 				}
